@@ -180,6 +180,11 @@ class Buck4_Spline(object):
     self._attach_point = attach_point
     self._r_min = r_min
 
+    # The ten spline conditions only determine the polynomials when the three points are distinct and in order:
+    # otherwise the linear system is singular, or is solved for a 'spline' that is used outside the interval it joins.
+    if not (detach_point.r < r_min < attach_point.r):
+      raise ValueError("Buck4 spline requires r_detach < r_min < r_attach, got r_detach = {}, r_min = {}, r_attach = {}".format(detach_point.r, r_min, attach_point.r))
+
     self._init_spline_coefficients()
 
 
